@@ -38,7 +38,7 @@ func resetEvent() Event {
 }
 
 // features covered by spec and generator at this point of the growth
-var features = elvcore.Features{ErrRate: 3}
+var features = elvcore.Features{Control: true, Fn: true, Exc: true, Logic: true, XCap: true, ErrRate: 3}
 
 // runProgram renders and runs the chunks of one program on a fresh Evaler and records the events.
 func runProgram(chunks []*elvcore.Node) ([]Event, error) {
@@ -103,7 +103,10 @@ func run(c *lib.Ctx) error {
 	c.Set("features", features.Names())
 	c.Set("rule", "V: one case per top-level chunk evaluated by the real Evaler and by EvalChunk; distinct by rendered source; chunks that only declare variables without output or exception are not counted as non-trivial")
 
-	nprog := c.Pick(600, 12000)
+	nprog := c.Pick(500, 12000)
+	if s := os.Getenv("VERIF_C15_N"); s != "" { // development only
+		fmt.Sscan(s, &nprog)
+	}
 	progs := make([][]Event, nprog)
 	errs := make([]error, nprog)
 	lib.Parallel(nprog, 8, func(i int) {
@@ -118,8 +121,16 @@ func run(c *lib.Ctx) error {
 	}
 	nchunks, excs := 0, 0
 	causes := map[string]int{}
+	kinds := map[string]int{}
 	for _, p := range progs {
 		for _, e := range p[1:] {
+			e.Ast.Walk(func(n *elvcore.Node) {
+				k := n.T
+				if k == "cmd" && n.Head.T == "name" {
+					k = "cmd:" + n.Head.Name
+				}
+				kinds[k]++
+			})
 			nchunks++
 			c.AddEvals(1)
 			cc := e.Exc["c"].(string)
@@ -136,6 +147,7 @@ func run(c *lib.Ctx) error {
 	c.Set("programs", nprog)
 	c.Set("chunks", nchunks)
 	c.Set("cause_histogram", causes)
+	c.Set("node_kinds", kinds)
 
 	j, err := judge(c, "TraceElvCore(V)", progs, 8)
 	if err != nil {
